@@ -16,7 +16,12 @@ package cdc
 //     broadcasts to the other nodes);
 //   - the endpoint is a Sink recording every payload; it can be made to fail the next writes;
 //   - time is the model clock; the harness performs one stimulus at a time and lets every
-//     goroutine come to rest before the next one.
+//     goroutine come to rest before the next one. One stimulus is itself a race: "burst +
+//     snapshot sync" writes the groups of several hand-overs into the hand-off channel back to
+//     back and requests the snapshot sync at once, as store.fsmApply / fsmSnapshot do (one
+//     goroutine of Raft); the entries VerifC25bSnapshotRace* explore it with both outcomes of
+//     every select that has several ready cases and with preemptions (verifSchedWindow), and
+//     replay natively with the forced schedule and forced select choices (spec "force_select").
 //
 // Oracle (property statement, cdc/DESIGN.md, doc comments of the Service fields):
 //   - every message delivered to the endpoint is one of the groups handed to the service, with the
@@ -26,7 +31,9 @@ package cdc
 //     this node was handed has been delivered (by this node, or - as far as an HWM update received
 //     from the cluster says - by another leader): followers delete what the HWM covers;
 //   - once a snapshot sync was answered, the groups handed over before it survive a restart
-//     (the log that produced them is truncated; only later entries are applied again);
+//     (the log that produced them is truncated; only later entries are applied again); and at the
+//     moment the answer arrives they are in the disk queue (cdc/DESIGN.md, "Snapshot
+//     Synchronization"), unless delivered or covered by an HWM update from the cluster;
 //   - finally (node is leader, endpoint healthy, time passes): every group handed to the service
 //     whose entry is not covered by an HWM update from the cluster has been delivered.
 
